@@ -212,13 +212,20 @@ def profiles(analysis):
         built = [e for e in p.events if e.kind == "NEW" and e.a["cls"] in {c.qual for c in analysis.protos}]
         val = None
         for c in p.conds:
-            t = c.term
-            if c.pol and isinstance(t, tuple) and t[0] == "cmp" and t[1] == "==" and is_const(t[3]):
+            t, pol = c.term, c.pol
+            while isinstance(t, tuple) and t and t[0] == "not":
+                t, pol = t[1], not pol
+            if isinstance(t, tuple) and t[0] == "cmp" and is_const(t[3]) and ((t[1] == "==" and pol) or (t[1] == "!=" and not pol)):
                 val = t[3][1]
         if built and p.exit_kind() == "return":
             out[val] = built[0].a["cls"]
         elif p.exit_kind() == "raise":
-            if all(not c.pol for c in p.conds):
+            def excludes(c):
+                t, pol = c.term, c.pol
+                while isinstance(t, tuple) and t and t[0] == "not":
+                    t, pol = t[1], not pol
+                return (not pol) if not (isinstance(t, tuple) and t[:2] == ("cmp", "!=")) else bool(pol)
+            if all(excludes(c) for c in p.conds):
                 raises_other = True
     return out, raises_other, paths
 
